@@ -252,8 +252,9 @@ def rows (k : Kind) (c : EArgs) (opts : List Opt) : Option (Nat × List Row) :=
     let st := (if n 1 = 1 then 1 else 0) + (if n 0 = 1 then 2 else 0) + (if n 1 > 1 then 4 else 0) + (if n 0 > 1 then 8 else 0)
     some (20, [.num 0 4 st, .num 4 4 0, .num 8 4 0, .num 12 4 0, .num 16 4 (n 2)])
   | .ged =>      -- ACPI 6.5 Table 18.12: Section Type is a 16-byte GUID (the crate has a u16: known finding)
-    some (72, [.raw 0 (leN 16 (n 0)), .num 16 4 (n 1), .num 20 2 (n 2), .num 22 1 (n 3), .num 23 1 (n 4), .num 24 4 (n 5),
-      .raw 28 (c.blob 0), .raw 44 (c.blob 1), .raw 64 (c.blob 2)])
+    let data := (c.b.toList.drop 3).flatten       -- `add_data`: the section body follows the 72-byte head
+    some (72 + data.length, [.raw 0 (leN 16 (n 0)), .num 16 4 (n 1), .num 20 2 (n 2), .num 22 1 (n 3), .num 23 1 (n 4), .num 24 4 (n 5),
+      .raw 28 (c.blob 0), .raw 44 (c.blob 1), .raw 64 (c.blob 2)] ++ (if data.isEmpty then [] else [.raw 72 data]))
   | .ecam => some (16, [.num 0 8 (n 0), .num 8 2 (n 1), .num 10 1 (n 2), .num 11 1 (n 3), res 12 4])
   | .xsdtEntry => some (8, [.num 0 8 (n 0)])
   | .qosctrl =>
